@@ -100,7 +100,7 @@ def parse_gfa_outputs(run):
     out = {}
     for fn, p in run.files.items():
         if fn.endswith(".gfa"):
-            out[fn.split("-", 1)[1][:-4] if "-" in fn else fn] = (rg.read(p), open(p).read())
+            out[fn.rsplit("-", 1)[1][:-4] if "-" in fn else fn] = (rg.read(p), open(p).read())
     return out
 
 
@@ -109,7 +109,7 @@ def parse_csv_outputs(run):
     for fn, p in run.files.items():
         if fn.endswith(".csv"):
             rows = [l.rstrip("\n").split(",") for l in open(p)]
-            out[fn.split("-", 1)[1][:-4] if "-" in fn else fn] = rows
+            out[fn.rsplit("-", 1)[1][:-4] if "-" in fn else fn] = rows
     return out
 
 
